@@ -99,11 +99,12 @@ def fromDlf (reOk : String → Bool) (a : AFilter) : Filter :=
     lvlMax := (jLvl a.lvlMax).getD none,
     lifecycles := none }
 
-/-- can the abstract filter be written as one entry of a dlt-convert APID/CTID list? (positive, enabled, two literal ids of
-    at most four ASCII bytes without the padding character `-`, nothing else) -/
+/-- can the abstract filter be written as one entry of a dlt-convert APID/CTID list? (positive, enabled, each id either not
+    given - written `----` - or a literal of at most four ASCII bytes without the padding character `-`, nothing else) -/
 def listIdOk (s : Option String) (flag : Option Bool) : Bool :=
   match s, flag with
   | some x, some false => !x.isEmpty && x.toList.length ≤ 4 && x.toList.all (fun c => c.toNat < 128) && !x.toList.contains '-'
+  | none, _ => true          -- not given: written as `----`
   | _, _ => false
 
 def listExpressible (a : AFilter) : Bool :=
